@@ -156,6 +156,18 @@ def firmware(length, salt):
 _PATTERNS = {}
 
 
+def firmware_of(case):
+    """the image of a case; case['fill'] = 'p:vv,p:vv' overwrites whole pages p with byte vv (blank-looking
+    0xff pages, zero pages), clipped to the image length"""
+    fw = bytearray(firmware(case['length'], case['salt']))
+    for cell in filter(None, case.get('fill', '').split(',')):
+        p, v = cell.split(':')
+        lo, hi = int(p) * PAGE, min(len(fw), (int(p) + 1) * PAGE)
+        if lo < hi:
+            fw[lo:hi] = bytes([int(v, 16)]) * (hi - lo)
+    return bytes(fw)
+
+
 # ---------------------------------------------------------------------------------------------
 # schedules
 # ---------------------------------------------------------------------------------------------
@@ -224,7 +236,7 @@ class Session:
     def run_real(self, case):
         """case: dict(pc, length, salt, sched, flash).  Returns what the real cli_main did."""
         m = dfu_module()
-        fw = firmware(case['length'], case['salt'])
+        fw = firmware_of(case)
         path = os.path.join(self.tmp, 'fw.bin')
         with open(path, 'wb') as f:
             f.write(fw)
@@ -262,7 +274,7 @@ class Session:
                     report=rep, fw=fw)
 
     def run_model(self, case):
-        fw = firmware(case['length'], case['salt'])
+        fw = firmware_of(case)
         line = LINK.ask('dfu-host {} {} {} {}'.format(case['pc'], fw.hex() if fw else '-', case['sched'], case['flash']))
         head, _, rest = line.partition(' trace=')
         d = dict(tok.split('=', 1) for tok in head.split(' '))
